@@ -18,8 +18,12 @@ import (
 	"go/ast"
 	"go/token"
 	"go/types"
+	"os"
+	"path/filepath"
 	"sort"
 	"strings"
+
+	"golang.org/x/tools/go/ssa"
 )
 
 func addSubtraceRule(w *World, r *Report, rule string) {
@@ -116,6 +120,17 @@ func addSubtraceRule(w *World, r *Report, rule string) {
 			}
 			if id, ok := rs.Value.(*ast.Ident); ok {
 				lp.valVar = id.Name
+			} else if len(rs.Body.List) > 0 {
+				// `for i := range coll { v := coll[i]; … }`: v plays the role of the value variable
+				if as, ok := rs.Body.List[0].(*ast.AssignStmt); ok && as.Tok == token.DEFINE && len(as.Lhs) == 1 && len(as.Rhs) == 1 {
+					if ix, ok := ast.Unparen(as.Rhs[0]).(*ast.IndexExpr); ok && c.expr(ix.X) == lp.coll {
+						if kid, ok := ast.Unparen(ix.Index).(*ast.Ident); ok && kid.Name == lp.keyVar {
+							if lid, ok := as.Lhs[0].(*ast.Ident); ok {
+								lp.valVar = lid.Name
+							}
+						}
+					}
+				}
 			}
 			// statements before the emission: at most one `if cond { continue }`
 			for _, st := range rs.Body.List {
@@ -216,4 +231,273 @@ func addSubtraceRule(w *World, r *Report, rule string) {
 		r.violated(rule, "instance-count", "-", fmt.Sprintf("expected at least 2 flattening functions assigning Subtraces, found %d: the rule's anchors no longer resolve", len(sites)))
 	}
 	r.need(rule, 2)
+}
+
+// flattenDecls: the functions of tracers/native that assign a frame's Subtraces (the flattening functions).
+func flattenDecls(w *World) []*ast.FuncDecl {
+	p := w.Pkgs[forkPath(pkNative)]
+	var out []*ast.FuncDecl
+	if p == nil {
+		return nil
+	}
+	for _, f := range p.Syntax {
+		for _, d := range f.Decls {
+			fd, ok := d.(*ast.FuncDecl)
+			if !ok || fd.Body == nil {
+				continue
+			}
+			hit := false
+			ast.Inspect(fd.Body, func(n ast.Node) bool {
+				if as, ok := n.(*ast.AssignStmt); ok && len(as.Lhs) == 1 {
+					if sel, ok := as.Lhs[0].(*ast.SelectorExpr); ok && sel.Sel.Name == "Subtraces" {
+						hit = true
+					}
+				}
+				return true
+			})
+			if hit {
+				out = append(out, fd)
+			}
+		}
+	}
+	sort.Slice(out, func(i, j int) bool { return out[i].Name.Name < out[j].Name.Name })
+	return out
+}
+
+// addLoopVarAddressRule (R19.6): the module's language version gives one variable per range loop, not
+// one per iteration; the emitted frames keep pointers into what they are built from (From, To, Gas,
+// GasUsed …), so the address of a range variable (or of a field of it) handed to a frame builder makes
+// every frame of the loop report the last element's values. In the flattening functions the address
+// operator is never applied to a range variable; a per-iteration copy declared inside the body is.
+func addLoopVarAddressRule(w *World, r *Report, rule string) {
+	p := w.Pkgs[forkPath(pkNative)]
+	info := p.TypesInfo
+	perIteration := false
+	goVersion := "?"
+	if b, err := os.ReadFile(filepath.Join(w.RepoDir, "go.mod")); err == nil {
+		for _, ln := range strings.Split(string(b), "\n") {
+			f := strings.Fields(ln)
+			if len(f) == 2 && f[0] == "go" {
+				goVersion = f[1]
+			}
+		}
+	}
+	{
+		var maj, min int
+		if n, _ := fmt.Sscanf(goVersion, "%d.%d", &maj, &min); n == 2 {
+			perIteration = maj > 1 || (maj == 1 && min >= 22)
+		}
+	}
+	n := 0
+	for _, fd := range flattenDecls(w) {
+		key := "tracers/native." + declRelName(fd)
+		var bad []string
+		loops := 0
+		ast.Inspect(fd.Body, func(nd ast.Node) bool {
+			rs, ok := nd.(*ast.RangeStmt)
+			if !ok {
+				return true
+			}
+			loops++
+			vars := map[types.Object]bool{}
+			for _, e := range []ast.Expr{rs.Key, rs.Value} {
+				if id, ok := e.(*ast.Ident); ok && id.Name != "_" {
+					if o := info.Defs[id]; o != nil {
+						vars[o] = true
+					}
+				}
+			}
+			ast.Inspect(rs.Body, func(m ast.Node) bool {
+				u, ok := m.(*ast.UnaryExpr)
+				if !ok || u.Op != token.AND {
+					return true
+				}
+				// &v, &v.f, &v[i] …: find the root identifier
+				e := ast.Unparen(u.X)
+				for {
+					switch x := e.(type) {
+					case *ast.SelectorExpr:
+						e = ast.Unparen(x.X)
+						continue
+					case *ast.IndexExpr:
+						e = ast.Unparen(x.X)
+						continue
+					}
+					break
+				}
+				if id, ok := e.(*ast.Ident); ok && vars[info.Uses[id]] {
+					bad = append(bad, "address of the range variable "+id.Name+" taken at "+w.pos(u.Pos()))
+				}
+				return true
+			})
+			return true
+		})
+		n++
+		switch {
+		case perIteration:
+			r.holds(rule, key, w.pos(fd.Pos()), "the module's language version gives every iteration its own variable")
+		case len(bad) > 0:
+			r.violated(rule, key, w.pos(fd.Pos()), strings.Join(bad, "; ")+": with one variable per loop (go "+goVersion+") every frame built from it points at the same storage and reports the last element's values")
+		default:
+			r.holds(rule, key, w.pos(fd.Pos()), fmt.Sprintf("%d range loops; the address operator is applied to per-iteration copies only", loops))
+		}
+	}
+	r.need(rule, 2)
+	_ = n
+}
+
+// addSiblingGuardRule (R19.7): the flattening functions are siblings: each discards the frame's Result
+// under a guard, and the guards must be the same condition over the function's own input (the record
+// being flattened) — in particular not over the frame being built, whose Error field has by then been
+// rewritten by the optional parity conversion.
+func addSiblingGuardRule(w *World, r *Report, rule string) {
+	p := w.Pkgs[forkPath(pkNative)]
+	info := p.TypesInfo
+	c := &astCanon{info: info}
+	type guard struct {
+		fn   string
+		cond string
+		pos  token.Pos
+		onInput bool
+	}
+	var gs []guard
+	for _, fd := range flattenDecls(w) {
+		var input types.Object
+		if fd.Type.Params != nil && len(fd.Type.Params.List) > 0 && len(fd.Type.Params.List[0].Names) > 0 {
+			input = info.Defs[fd.Type.Params.List[0].Names[0]]
+		}
+		ast.Inspect(fd.Body, func(nd ast.Node) bool {
+			ifs, ok := nd.(*ast.IfStmt)
+			if !ok {
+				return true
+			}
+			discards := false
+			for _, st := range ifs.Body.List {
+				if as, ok := st.(*ast.AssignStmt); ok && len(as.Lhs) == 1 && len(as.Rhs) == 1 {
+					if sel, ok := as.Lhs[0].(*ast.SelectorExpr); ok && sel.Sel.Name == "Result" && isNilExpr(info, as.Rhs[0]) {
+						discards = true
+					}
+				}
+			}
+			if !discards {
+				return true
+			}
+			// every identifier of the condition other than package-level names must be the input parameter
+			onInput := true
+			ast.Inspect(ifs.Cond, func(m ast.Node) bool {
+				if id, ok := m.(*ast.Ident); ok {
+					if v, ok := info.Uses[id].(*types.Var); ok && !v.IsField() && !(v.Pkg() != nil && v.Parent() == v.Pkg().Scope()) && types.Object(v) != input {
+						onInput = false
+					}
+				}
+				return true
+			})
+			cond := c.expr(ifs.Cond)
+			if input != nil {
+				// print the input parameter by position
+				cond = replaceIdent(cond, input.Name(), "$in")
+			}
+			gs = append(gs, guard{declRelName(fd), cond, ifs.Pos(), onInput})
+			return true
+		})
+	}
+	if len(gs) < 2 {
+		r.undecided(rule, "tracers/native.flatten/result-discard", "-", fmt.Sprintf("expected a result-discard guard in each of the flattening functions, found %d: the rule's anchors no longer resolve", len(gs)))
+		return
+	}
+	for _, g := range gs {
+		key := "tracers/native." + g.fn + "/result-discard"
+		switch {
+		case !g.onInput:
+			r.violated(rule, key, w.pos(g.pos), "the guard that discards the frame's Result is not a condition over the record being flattened (`"+g.cond+"`): fields of the frame under construction have already been rewritten (parity error conversion)")
+		case g.cond != gs[0].cond:
+			r.violated(rule, key, w.pos(g.pos), "the guard that discards the frame's Result (`"+g.cond+"`) differs from its sibling's in "+gs[0].fn+" (`"+gs[0].cond+"`)")
+		default:
+			r.holds(rule, key, w.pos(g.pos), "same condition over the input record as in the sibling flattening function(s): "+g.cond)
+		}
+	}
+	r.need(rule, 2)
+}
+
+// addExitClosesLastRule (R19.8): Aspect executions of one call frame do not nest (an Aspect's own calls
+// open new call frames), so the execution an exit event completes is the one opened last:
+// CaptureAspectEnter appends an element to the frame's JoinPoints, and every write CaptureAspectExit
+// makes into an element of JoinPoints (field stores and pointer-receiver method calls such as
+// processOutput) must address the element with index len(JoinPoints)-1. Decided by E3 entailment of
+// idx = len-1 at the write. Matching by join-point type from the front completes the wrong execution
+// as soon as two Aspects are bound to the same join point.
+func addExitClosesLastRule(w *World, r *Report, rule string) {
+	fn := w.Func(forkPath(pkNative), "(*callTracer).CaptureAspectExit")
+	key := "tracers/native.(*callTracer).CaptureAspectExit"
+	if fn == nil {
+		r.undecided(rule, key, "-", "function not found: the rule's anchor does not resolve")
+		return
+	}
+	a := w.rangeEnv().analyse(fn)
+	isJP := func(ia *ssa.IndexAddr) bool {
+		u, ok := ia.X.(*ssa.UnOp)
+		if !ok || u.Op != token.MUL {
+			return false
+		}
+		fa, ok := u.X.(*ssa.FieldAddr)
+		return ok && strings.HasSuffix(fieldID(fa), ".JoinPoints")
+	}
+	seen := map[*ssa.IndexAddr]bool{}
+	n := 0
+	check := func(ia *ssa.IndexAddr, what string, pos token.Pos) {
+		if seen[ia] {
+			return
+		}
+		seen[ia] = true
+		n++
+		k := fmt.Sprintf("%s/element-write#%d", key, n)
+		b := ia.Block()
+		idx := a.lin(ia.Index, b)
+		want := a.lenOf(ia.X, b).minus(konst64(1))
+		if a.proves(b, le(idx, want)) && a.proves(b, le(want, idx)) {
+			r.holds(rule, k, w.pos(pos), what+": the element written is JoinPoints[len-1], the execution opened last")
+		} else {
+			r.violated(rule, k, w.pos(pos), what+": the element written (index "+idx.String()+") is not entailed to be the last one (len-1 = "+want.String()+"): with two Aspects bound to the same join point the exit of the second completes the first again and the second stays without gas used, output and error")
+		}
+	}
+	for _, b := range fn.Blocks {
+		for _, ins := range b.Instrs {
+			switch x := ins.(type) {
+			case *ssa.Store:
+				if fa, ok := x.Addr.(*ssa.FieldAddr); ok {
+					if ia, ok := fa.X.(*ssa.IndexAddr); ok && isJP(ia) {
+						check(ia, "store to "+fieldID(fa), x.Pos())
+					}
+				}
+			case ssa.CallInstruction:
+				c := x.Common()
+				if cal := c.StaticCallee(); cal != nil && len(c.Args) > 0 {
+					if ia, ok := c.Args[0].(*ssa.IndexAddr); ok && isJP(ia) {
+						check(ia, "call of "+cal.Name(), ins.Pos())
+					}
+				}
+			}
+		}
+	}
+	if n == 0 {
+		r.undecided(rule, key, w.pos(fn.Pos()), "CaptureAspectExit writes no element of JoinPoints: the rule's anchor does not resolve")
+	}
+	r.need(rule, 1)
+}
+
+func replaceIdent(s, name, with string) string {
+	if name == "" {
+		return s
+	}
+	var sb strings.Builder
+	for i := 0; i < len(s); {
+		if strings.HasPrefix(s[i:], name) && (i == 0 || !isIdentChar(s[i-1])) && (i+len(name) == len(s) || !isIdentChar(s[i+len(name)])) {
+			sb.WriteString(with)
+			i += len(name)
+			continue
+		}
+		sb.WriteByte(s[i])
+		i++
+	}
+	return sb.String()
 }
